@@ -1148,8 +1148,24 @@ func runGROWSHRINK(c *Ctx) {
 					// the key test answers "no key of the root belongs above the height" only after it has looked at
 					// every key: a `false` handed back on any other condition (a root with a single entry "cannot be
 					// spread over two levels") keeps a tree lower than its contents require
+					// (a wrapper — shouldGrow → canGrow — is looked through: the function that looks at the keys is judged)
+					for d := 0; d < 2 && !measuresKeys(c, h, 2); d++ {
+						var next *ssa.Function
+						for _, ci := range CallsOf(h) {
+							if g := ir.Callee(ci.Common()); g != nil && isOwn(c.P, g) && measuresKeys(c, g, 1) {
+								next = g
+							}
+						}
+						if next == nil {
+							break
+						}
+						h = next
+					}
 					hei := ir.ErrorResultIndex(h.Signature)
 					for _, r := range ir.Returns(h) {
+						if !measuresKeys(c, h, 2) {
+							break
+						}
 						if hei >= 0 && hei < len(r.Results) && !ir.IsNilConst(r.Results[hei]) {
 							continue
 						}
